@@ -8,11 +8,11 @@ Require Import C01.Sums C01.Batch C01.Tensor C01.OpExpr C01.Model C01.Covered.
 Open Scope Z_scope.
 
 (* ---- compact literals ---------------------------------------------------------------------------------
-   The shards write every tensor as flat row-major data in chunks of primitive 63-bit integers (two's complement for
-   negative entries): primitive integer literals elaborate about three times faster than nested lists of Z numerals,
+   The shards write every tensor as flat row-major data in chunks of primitive 63-bit integers (sign-magnitude
+   coded): primitive integer literals elaborate about three times faster than nested lists of Z numerals,
    and the elaboration of the literals dominates the compile time of a shard. *)
-Definition zi (x : int) : Z :=
-  let v := Uint63.to_Z x in if (v <? 4611686018427387904)%Z then v else (v - 9223372036854775808)%Z.
+Definition zi (x : int) : Z :=       (* sign-magnitude: 2 |v| + (1 if v < 0) *)
+  let v := Uint63.to_Z x in if Z.even v then (v / 2)%Z else (- (v / 2))%Z.
 
 (* n consecutive pieces of length k *)
 Fixpoint pieces_of {T} (n k : nat) (l : list T) : list (list T) :=
